@@ -12,8 +12,9 @@ parameter `ScmSem`; for git it is instantiated with `Model/GitSwitch.lean` by th
 Every change of the file system goes through `emit`/`emitSet`, so the micro-op list is
 complete by construction (`Props/C12.lean: fs_is_replay`).
 
-(Findings F-C12-1/2, fixed in the source: nested SCMs of an SCM in "." are registered in the attic,
-and `bob clean --attic` consults the nested registrations below a candidate.)
+(Findings F-C12-1/2/3, fixed in the source: nested SCMs of an SCM in "." are registered in the attic,
+`bob clean --attic` consults the nested registrations below a candidate, and `checkoutsFromState`
+orders by path components so that a directory always comes before the directories below it.)
 -/
 namespace Checkout
 
@@ -33,10 +34,6 @@ def normAux : List String → List String → List String
     else normAux rest (c :: acc)
 
 def normComps (dir : String) : Comps := normAux (dir.splitOn "/") []
-
-/-- the sort key of `checkoutsFromState`: `normcase(normpath(dir))` as code points -/
-def keyOf (p : Comps) : List Char :=
-  if p.isEmpty then ['.'] else ("/".intercalate p).toList
 
 /-- code point order of Python strings -/
 def lexLe : List Char → List Char → Bool
@@ -155,11 +152,18 @@ def emitSet (op : Op σ) (p : Comps) (k : κ) (st : St σ κ) : St σ κ :=
 
 /-! ## checkoutsFromState and AtticTracker -/
 
+/-- order of Python lists of strings: the sort key of `checkoutsFromState` is the list of path
+components of `normcase(normpath(dir))`, `[]` for "." -/
+def compsLe : Comps → Comps → Bool
+  | [], _ => true
+  | _ :: _, [] => false
+  | a :: as, b :: bs => if a == b then compsLe as bs else lexLe a.toList b.toList
+
 def sortedOld (old : List (OldEntry σ)) : List (OldEntry σ) :=
-  old.mergeSort (fun a b => lexLe (keyOf (normComps a.dir)) (keyOf (normComps b.dir)))
+  old.mergeSort (fun a b => compsLe (normComps a.dir) (normComps b.dir))
 
 def sortedNewDirs (new : List (NewEntry σ)) : List String :=
-  (new.map (·.dir)).mergeSort (fun a b => lexLe (keyOf (normComps a)) (keyOf (normComps b)))
+  (new.map (·.dir)).mergeSort (fun a b => compsLe (normComps a) (normComps b))
 
 /-- `AtticTracker.__match`: first registered prefix in insertion order -/
 def trackerMatch (tr : List (Comps × Nat)) (p : Comps) : Option (Comps × Nat) :=
